@@ -833,9 +833,9 @@ example : ChangeSection.run mergePI (ChangeSection.init (0, 0))
         (fun s => s.calls.map (fun c => (c.current, c.value)))) = some [((0, 0), (1, 0)), ((1, 0), (1, 2))] := by
   decide
 
-/-- `PREDEFINED_ACCESSIBLES` has no duplicate name: the first-match look-up of the model is the dict look-up -/
 /-! ### table facts (re-checked whenever the repository's table changes) -/
 
+/-- `PREDEFINED_ACCESSIBLES` has no duplicate name: the first-match look-up of the model is the dict look-up -/
 theorem predefined_nodup : (Frappy.Generated.C04.predefined.map (·.1)).Nodup := by decide +kernel
 
 /-- the classes the dispatcher raises carry eight different SECoP names -/
